@@ -38,3 +38,5 @@ mod c35;
 mod c25;
 #[cfg(kani)]
 mod c03;
+#[cfg(kani)]
+mod c28;
